@@ -44,6 +44,13 @@ def candidates (s : Svc) (q : Question) : List Rec :=
     ++ (if (q.type = 33 ∨ q.type = 255) ∧ n = lower s.name then [srvOf s] else [])
     ++ (if (q.type = 16 ∨ q.type = 255) ∧ n = lower s.name then [txtOf s] else [])
 
+/-- the records of `s` that *may* be offered for `q` (soundness side).  The property exempts `ANY` questions on host names from
+the completeness claim only: a responder that answers `ANY <host>` with the host's address records offers records of a
+registered service that answer the question, so they are allowed here (the code as shipped offers nothing for such a question). -/
+def candidatesS (s : Svc) (q : Question) : List Rec :=
+  candidates lower ettl s q
+  ++ (if q.type = 255 ∧ lower q.name = lower s.server then addrsOf s else [])
+
 /-- every record `s` can ever be asked for -/
 def own (s : Svc) : List Rec := [enumPtr ettl (lower s.type), ptrOf s, srvOf s, txtOf s] ++ addrsOf s ++ nsecOf s
 
@@ -61,10 +68,12 @@ def supAll (known : List Rec) (r : Rec) : Bool :=
 def isNsec (r : Rec) : Bool := r.rdata.kind = .nsec
 
 /-- `a` is offered legitimately: it is a record of a registered service that answers one of the questions
-(exactly — owner spelling, class, cache-flush bit, TTL and rdata as configured), and the querier does not
-already hold it with more than half of its TTL (NSEC answers are outside that clause) -/
+(exactly — owner spelling, class, cache-flush bit, TTL and rdata as configured; for the type-enumeration pointer the
+rdata is the lower-cased type and the TTL the responder's `ettl`, neither is configured), and the querier does not
+already hold it with more than half of its TTL (NSEC answers are outside that clause).  `known` is the querier's list
+as it is on the wire (no scope ids, see `Model/RespScope.lean`). -/
 def soundAnswer (svcs : List Svc) (qs : List Question) (known : List Rec) (a : Rec) : Bool :=
-  qs.any (fun q => svcs.any (fun s => (candidates lower ettl s q).contains a))
+  qs.any (fun q => svcs.any (fun s => (candidatesS lower ettl s q).contains a))
   && (isNsec a || !(supAll lower known a))
 
 /-- some registered service on `s`'s host has an address of type `t` -/
